@@ -553,7 +553,57 @@ func checkC09(c *Check) {
 				}
 				return false
 			}
-			if path, f := r.F.ReachRefined(bodyPt, eo, false, false, iterEnd, ownLoopX); f {
+			// … or a method of the per-target delivery, called on this target with this error, that does exactly that
+			// (`delivery.failBody(c, err)`)
+			ownHelper := func(pt Pt) bool {
+				for _, call := range callsAt(pt.Node()) {
+					if recvObj(info, call) != lv {
+						continue
+					}
+					fn := callee(info, call)
+					if fn == nil || fn.Pkg() != r.FI.Obj.Pkg() {
+						continue
+					}
+					d := c.P.DeclOf(fn)
+					if d == nil || d.Decl.Body == nil || d.Decl.Recv == nil || len(d.Decl.Recv.List) != 1 || len(d.Decl.Recv.List[0].Names) != 1 {
+						continue
+					}
+					di := d.Info()
+					recvO := di.Defs[d.Decl.Recv.List[0].Names[0]]
+					// the parameter the error is bound to
+					var errP types.Object
+					pi := 0
+					for _, f := range d.Decl.Type.Params.List {
+						for _, nm := range f.Names {
+							if pi < len(call.Args) && objOf(info, call.Args[pi]) == eo {
+								errP = di.Defs[nm]
+							}
+							pi++
+						}
+					}
+					if errP == nil {
+						continue
+					}
+					for _, l := range elemLoops(di, d.Decl.Body, func(e ast.Expr) bool {
+						sx, ok := ast.Unparen(e).(*ast.SelectorExpr)
+						return ok && objOf(di, sx.X) == recvO && sx.Sel.Name == "recipients"
+					}) {
+						l := l
+						reports := false
+						ast.Inspect(l.Body, func(x ast.Node) bool {
+							if c2, ok := x.(*ast.CallExpr); ok && methodName(c2) == "SetStatus" && len(c2.Args) == 2 && l.IsElem(c2.Args[0]) && objOf(di, c2.Args[1]) == errP {
+								reports = true
+							}
+							return true
+						})
+						if reports && l.Whole {
+							return true
+						}
+					}
+				}
+				return false
+			}
+			if path, f := r.F.ReachRefined(bodyPt, eo, false, false, iterEnd, orPt(ownLoopX, ownHelper)); f {
 				msg = "a failure of one target's Body can be left unreported for that target's recipients: " + r.F.Describe(path)
 			}
 			if path, f := r.F.ReachRefined(bodyPt, eo, false, false, foreign, iterEnd); f {
